@@ -189,6 +189,44 @@ def eval_case(case: dict) -> dict:
             "sample": {"pages": pages_summary} if n == 2 and fn and src else None} if True else {}
 
 
+def eval_multi(case: dict) -> dict:
+    """Multi-section documents (df=[...], one RTFBody per section; sections restart their page numbering and one renderer
+    object serves all of them).  The property's quantifier does not list them and the pinned code shows title / subline
+    on the first page only whatever page_title says, so only the part of the statement that the unchanged tree satisfies
+    AND that follows from the statement for any document is judged: footnote and source are present on every page their
+    option selects (all: every page, first: page 1, last: the last page), a configured title / subline is somewhere, and
+    the component order holds inside every section block.  Presence is a lower bound - repeated sources inside a page
+    that holds two sections are not judged."""
+    spec = dict(case)
+    try:
+        out = docspec.build(spec).doc.rtf_encode()
+    except Exception as e:
+        return {"viol": [{"klass": "encode-raised", "sig": f"multi-encode-raised-{type(e).__name__}", "detail": f"{type(e).__name__}: {e}"}], "nt": False}
+    doc = parse(out)
+    viol = []
+    if doc.errors:
+        viol.append({"klass": None, "sig": "multi-unparseable-" + doc.errors[0][0], "detail": str(doc.errors[:3])})
+    per = [[r for r, _ in page_roles(pg)] for pg in doc.pages]
+    n = len(per)
+    pk = spec["page"]
+    for what, opt, rs, conf in (("title", pk["page_title"], ("title",), spec.get("title")), ("subline", pk["page_title"], ("subline",), spec.get("subline")),
+                                ("footnote", pk["page_footnote"], ("footnote_table", "footnote_para"), spec.get("footnote")),
+                                ("source", pk["page_source"], ("source_table", "source_para"), spec.get("source"))):
+        cs = [sum(1 for r in names if r in rs) for names in per]
+        if not conf:
+            if sum(cs):
+                viol.append({"klass": None, "sig": f"multi-{what}-unexpected", "detail": f"{what} not configured but found {cs}"})
+            continue
+        if sum(cs) == 0:
+            viol.append({"klass": None, "sig": f"multi-{what}-absent", "detail": f"{what} configured ({opt}) but absent from all {n} pages; sections {[x['n'] for x in spec['sections']]}"})
+        elif what in ("footnote", "source"):
+            want = [i for i in range(n) if selected(opt, i, n)]
+            miss = [i + 1 for i in want if cs[i] == 0]
+            if miss:
+                viol.append({"klass": None, "sig": f"multi-{what}-missing-on-selected-page", "detail": f"{what} ({opt}) missing on page(s) {miss} of {n}; per page {cs}"})
+    return {"viol": viol, "nt": n >= 2, "cnt": {"multi-section": 1, f"multi-pages={'1' if n == 1 else '2' if n == 2 else 'many'}": 1}}
+
+
 # --------------------------------------------------------------------------- enumeration
 
 STRATS = {
@@ -312,6 +350,15 @@ def plan(run):
             fcases.append(apply_geom({"kind": "figure", "nfig": 3, "title": 1, "subline": False, "footnote": "para", "source": "para",
                                       "page": {}}, g))
     run.layer("figure-documents", "mc.props.c06:eval_case", fcases, chunk=40, total=len(fcases))
+    mcases = []
+    for sizes in ((8, 2), (2, 8), (8, 8), (2, 2), (8, 2, 2), (2, 8, 2), (12, 2), (2, 12), (16, 3), (16, 16)):
+        for pt, pf, ps in itertools.product(PLACE, repeat=3):
+            for fn, src in (("table", "para"), ("para", "table")) if quick else (("table", "para"), ("para", "table"), ("table", "table"), ("para", "para")):
+                for snp in (None,):  # RTFBody.new_page needs page_by: sections flow on
+                    secs = [{"n": k, "cols": ["s", "i"], "header": "explicit", **({"section_new_page": True} if snp else {})} for k in sizes]
+                    mcases.append({"kind": "multi", "sections": secs, "title": 1, "subline": True, "footnote": fn, "source": src,
+                                   "page": {"nrow": 7, "page_title": pt, "page_footnote": pf, "page_source": ps}})
+    run.layer("multi-section-presence", "mc.props.c06:eval_multi", mcases, chunk=40, total=len(mcases))
     for need in ("pages=1", "pages=2", "pages=3", "pages=many"):
         if not run.cnt.get(need):
             run.harness_errors.append({"layer": "vacuity", "case": None, "error": f"no document with {need} was produced"})
